@@ -23,6 +23,7 @@ theorem plain_ids (s : Sys) (ev : Ev) (h : isPlain ev = true) :
       (∃ e0 ∈ allEntries s.st, e0.segId = e.segId) ∨ (e.segId = s.nextId ∧ s.nextId < (s.step ev).nextId) := by
   cases ev with
   | startMerge ids => simp [isPlain] at h
+  | startMergeExplicit ids => simp [isPlain] at h
   | endMerge => simp [isPlain] at h
   | addSeg docs =>
     refine ⟨Nat.le_succ _, ?_⟩
@@ -57,6 +58,14 @@ theorem plain_ids (s : Sys) (ev : Ev) (h : isPlain ev = true) :
     intro e he
     simp only [allEntries, Sys.step, deleteAll, List.nil_append] at he
     exact Or.inl ⟨e, by simp [allEntries, he], rfl⟩
+  | removeEmpty =>
+    refine ⟨Nat.le_refl _, ?_⟩
+    intro e he
+    simp only [allEntries, Sys.step, removeEmpty, List.mem_append, List.mem_filter] at he
+    rcases he with (he | he) | he
+    · exact Or.inl ⟨e, by simp [allEntries, he], rfl⟩
+    · exact Or.inl ⟨e, by simp [allEntries, he.1], rfl⟩
+    · exact Or.inl ⟨e, by simp [allEntries, he.1], rfl⟩
 
 theorem reconcile_segId (st : State) (m : Entry) : (reconcile st m).segId = m.segId := by
   unfold reconcile
